@@ -161,6 +161,7 @@ type World struct {
 	LogHash  uint64
 	envForce bool
 	zombies  []*Actor
+	Taint    map[string]string // object key -> cause tag set by a monitor (e.g. stale takeover)
 	extra    map[string]any
 }
 
@@ -233,6 +234,7 @@ func NewWorld(cfg *Config, sch, scn *choice.Seq) *World {
 		Mapper:   NewRESTMapper(),
 		start:    time.Now(),
 		violSeen: map[string]bool{},
+		Taint:    map[string]string{},
 	}
 	w.Stats.Faults = map[string]int{}
 	w.Stats.Probes = map[string]int{}
